@@ -35,6 +35,7 @@ func runC04(r *Report, p *Program) {
 	c04R5(h)
 	c04R6(h)
 	c04R7(h)
+	c04R8(h)
 }
 
 // stringTable reads a package-level []string composite literal (constants resolved by go/types).
